@@ -491,6 +491,7 @@ type Contract struct {
 	Pure      bool
 	Trusted   bool
 	Nullable  map[string]bool
+	Callsback map[string]bool // function-typed parameters the function may invoke (with arbitrary effects of the closure)
 	Schema    []string
 	Props     map[string]bool // all tags mentioned
 	Where     string
@@ -591,7 +592,7 @@ func (db *SpecDB) loadFile(path string, lib bool) error {
 		switch word {
 		case "func", "lib":
 			key := strings.TrimSpace(rest)
-			cur = &Contract{Key: key, Lib: word == "lib", Invs: map[string][]*Clause{}, LoopMods: map[string][]string{}, LoopDecr: map[string]Expr{}, Nullable: map[string]bool{}, Props: map[string]bool{}, Where: where}
+			cur = &Contract{Key: key, Lib: word == "lib", Invs: map[string][]*Clause{}, LoopMods: map[string][]string{}, LoopDecr: map[string]Expr{}, Nullable: map[string]bool{}, Callsback: map[string]bool{}, Props: map[string]bool{}, Where: where}
 			if word == "lib" {
 				cur.Trusted = true
 				db.NLibEntries++
@@ -773,6 +774,10 @@ func (db *SpecDB) loadFile(path string, lib bool) error {
 			case "nullable":
 				for _, a := range strings.Fields(rest) {
 					cur.Nullable[strings.Trim(a, ",")] = true
+				}
+			case "callsback":
+				for _, a := range strings.Fields(rest) {
+					cur.Callsback[strings.Trim(a, ",")] = true
 				}
 			case "schema":
 				cur.Schema = strings.Fields(rest)
